@@ -102,7 +102,7 @@ class TlsAlertDescription(enum.IntEnum):
     CERTIFICATE_UNKNOWN = 0x2e
     ILLEGAL_PARAMETER = 0x2f
     UNKNOWN_CA = 0x30
-    ACCESS_DENIED = 0x30
+    ACCESS_DENIED = 0x31
     DECODE_ERROR = 0x32
     DECRYPT_ERROR = 0x33
     PROTOCOL_VERSION = 0x46
